@@ -153,10 +153,22 @@ Print Assumptions C05_context_not_written_by_constructors.
    the predeclared-identifier table, ...) are read-only input of every checker as well. A write rooted at such a variable, and — for
    maps, slices and pointers — a copy of the reference into a field, literal or variable (kind alias: writes through that copy reach
    the shared table without naming it), must be a reviewed site; constructor sites included, because a constructor runs per
-   configuration while the table is shared by all checkers of the process *)
-Eval vm_compute in (unreviewed reviewed_state (filter (fun s => String.eqb (s_name s) "package-level variables") state_inventory)).
+   configuration while the table is shared by all checkers of the process: only the two registration tables may have any site at all,
+   and none of them an alias site *)
+Definition registration_tables : list string := ["collection"; "prototypes"].
+Definition shared_table_ok (f : field_inv) : bool :=
+  match f_writes f with
+  | [] => true
+  | ws => mem (f_name f) registration_tables
+          && forallb (fun w => let 'W _ k _ := w in negb (mem k ["alias"; "ctor:alias"])) ws
+  end.
+(* diagnostics for a broken obligation: the shared variables with an unreviewed site *)
+Eval vm_compute in
+  (flat_map (fun s => if String.eqb (s_name s) "package-level variables"
+                      then map f_name (filter (fun f => negb (shared_table_ok f)) (s_fields s)) else []) state_inventory).
 Theorem C05_shared_tables_written_only_at_reviewed_sites :
-  forallb (fun s => negb (String.eqb (s_name s) "package-level variables") || struct_reviewed reviewed_state s) state_inventory = true.
+  forallb (fun s => negb (String.eqb (s_name s) "package-level variables")
+                    || (struct_reviewed reviewed_state s && forallb shared_table_ok (s_fields s))) state_inventory = true.
 Proof. vm_compute. reflexivity. Qed.
 Print Assumptions C05_shared_tables_written_only_at_reviewed_sites.
 
